@@ -119,6 +119,19 @@ def _pyb_job(job):
             outp = os.path.join(sub_cwd, s + '.cpp')
             listing = sorted(os.listdir(sub_cwd))
             res['script_subs'].append((rc, open(outp).read() if os.path.exists(outp) else None, err, listing))
+        # the same additional file wrapped AGAIN in the same working directory under other options: the file written must be
+        # what the API yields for THOSE options (an output left over from the first run is in the way)
+        res['script_subs_again'] = []
+        for s, t in list(zip(stems[1:], texts[1:]))[:1]:
+            sub_cwd = os.path.join(d, 'cwd_' + s)
+            args2 = ['--module_name', 'mymod', '--template', tpl, '--top_module_namespaces', topstr]
+            if not boost:
+                args2.append('--use-boost-serialization')
+            args2 += ['--ignore', 'no::Such']
+            rc, err = run_script('pybind_wrap.py', ['--src', os.path.join(d, s + '.i'), '--out', 'unused', '--is_submodule'] + args2, sub_cwd)
+            outp = os.path.join(sub_cwd, s + '.cpp')
+            api2 = pc.impl_wrap(t, (top, ['no::Such'], not boost), s, None)
+            res['script_subs_again'].append((s, rc, open(outp).read() if os.path.exists(outp) else None, err, api2))
         res['items'] = [it0[1]] + [pc.impl_items(t) for t in texts[1:]]
     finally:
         shutil.rmtree(d, ignore_errors=True)
@@ -203,6 +216,12 @@ def run(rep, tier, seed, replay=None, proof_ok=True):
                     shown += report(rep, shown, 'submodule run wrote other files: %s' % listing, r, None, None)
                 else:
                     rep.bump('script_sub_equal')
+            for s, rc, out, err, a in r.get('script_subs_again', []):
+                if (rc == 0) != (a[0] == 'ok') or (rc == 0 and out != a[1]):
+                    shown += report(rep, shown, 'second --is_submodule run in the same directory, other options: output differs from the API', r,
+                                    (out or err)[:3000], str(a[1])[:3000])
+                else:
+                    rep.bump('script_sub_rerun_equal')
             rep.sample({'files': len(texts), 'top': r['top'], 'ignore': r['ignore'], 'boost': r['boost']}, cap=4)
     finally:
         model.close()
